@@ -4,9 +4,10 @@
 import re, subprocess, sys, os
 props = sys.argv[1]
 i = sys.argv.index("--")
-imports = sys.argv[2:i]
+imports = [a for a in sys.argv[2:i] if a != "--N"]
+NSCOPE = "--N" in sys.argv[2:i]      # statements over N / lists: print with numerals and list notations
 pairs = [a.split("=") for a in sys.argv[i+1:]]
-src = "".join("From NW Require Import %s.\n" % m for m in imports) + "Set Printing Width 100.\nSet Printing Depth 1000.\n"
+src = "".join("From NW Require Import %s.\n" % m for m in imports) + ("From Coq Require Import List NArith.\nImport ListNotations.\nOpen Scope N_scope.\n" if NSCOPE else "") + "Set Printing Width 100.\nSet Printing Depth 1000.\n"
 for new, orig in pairs:
     src += 'Goal True. idtac "@@@%s". exact I. Qed.\nCheck %s.\n' % (new, orig)
 open("/verif/work/pin_tmp.v", "w").write(src)
